@@ -389,23 +389,23 @@ func (ei *resourceInformer) handleWatchEvent(object interface{}, eventType kemty
 			Objects:     []kemtypes.ObjectAndFilterResult{*objFilterRes},
 		}
 
-		// fix race with enableKubeEventCb.
-		eventCbEnabled := false
+		// Decide and buffer in one critical section: enableKubeEventCb flips the flag and
+		// replays the buffer under the same lock, so an event is either replayed from
+		// the buffer or sent directly, never left in a buffer that was already replayed.
 		ei.eventBufLock.Lock()
-		eventCbEnabled = ei.eventCbEnabled
-		ei.eventBufLock.Unlock()
-
-		if eventCbEnabled {
-			// Pass event info to callback.
-			ei.putEvent(kubeEvent)
-		} else {
-			ei.eventBufLock.Lock()
+		eventCbEnabled := ei.eventCbEnabled
+		if !eventCbEnabled {
 			// Save event in buffer until the callback is enabled.
 			if ei.eventBuf == nil {
 				ei.eventBuf = make([]kemtypes.KubeEvent, 0)
 			}
 			ei.eventBuf = append(ei.eventBuf, kubeEvent)
-			ei.eventBufLock.Unlock()
+		}
+		ei.eventBufLock.Unlock()
+
+		if eventCbEnabled {
+			// Pass event info to callback.
+			ei.putEvent(kubeEvent)
 		}
 	}
 }
